@@ -128,7 +128,8 @@ def import_arrangements(rng, n):
             files["dir/a.ddp"] = ok % (1, 1)
             files["dir/tief/b.ddp"] = "Die Zahl ist ist.\n" if rng.below(2) else ok % (2, 2)
             files["leer/.keep"] = ""
-            what = ["dir", "dir/", "leer", "gibtsnicht", "dir/a.ddp", ".", "..", "dir/tief", "", "Duden", "/"][rng.below(11)]
+            # (never a path that leaves the directory of the request: "..", "/" would walk foreign files)
+            what = ["dir", "dir/", "leer", "gibtsnicht", "dir/a.ddp", ".", "dir/..", "dir/tief", "", "leer/../dir", "./dir/tief/.."][rng.below(11)]
             files["main.ddp"] = HEAD + 'Binde %salle Module aus "%s" ein.\nSchreibe 1.\n' % ("rekursiv " if rng.below(2) else "", what)
         elif k == 10:   # directory imports that lead back to the importer
             files["dir/a.ddp"] = HEAD + 'Binde %salle Module aus "%s" ein.\n' % ("rekursiv " if rng.below(2) else "", ["..", ".", "../dir"][rng.below(3)]) + ok % (1, 1)
